@@ -683,12 +683,16 @@ impl Storage {
     }
 
     pub fn filter_block(&self, block: Block) {
+        let block_number: BlockNumber = block.header().raw().number().unpack();
+        // A script which has already been filtered beyond this block (or which starts after it)
+        // must not be indexed by it: the blocks between this block and the script's block number
+        // are never examined for it, so its cells created here could be spent there unnoticed.
         let scripts: HashSet<(Script, ScriptType)> = self
             .get_filter_scripts()
             .into_iter()
+            .filter(|ss| ss.block_number <= block_number)
             .map(|ss| (ss.script, ss.script_type))
             .collect();
-        let block_number: BlockNumber = block.header().raw().number().unpack();
         let mut filter_matched = false;
         let mut batch = self.batch();
         let mut txs: HashMap<Byte32, (u32, Transaction)> = HashMap::new();
